@@ -26,8 +26,8 @@ Fault injection (per logical request, armed by the harness with `arm`): answer w
 status and a CouchDB-style JSON error body, answer 200 with a body that is not JSON, or drop the
 connection without an answer (every retry of the same request is dropped too).  Such a faulted request
 is never processed.  ("lost",): the request IS processed as usual, but the connection is closed instead
-of sending the answer (the answer is lost on the wire); a repetition of the request is an ordinary
-further request.
+of sending the answer (the answer is lost on the wire); a repetition of the request directly after it
+is served normally and counted in `repeats` (not as a further logical request).
 """
 import base64
 import hashlib
@@ -62,6 +62,8 @@ class FakeCouchDB:
         self.n = 0                         # logical request counter since the last arm()
         self.drops = 0
         self.fault_hits = 0                # arrivals answered by a fault since the last arm()
+        self.lost_request = None
+        self.repeats = 0
         self.log = []                      # (method, path, status or 'drop') since the last arm()
         self.httpd = None
         self.thread = None
@@ -98,6 +100,8 @@ class FakeCouchDB:
             self.drops = 0
             self.fault_hits = 0
             self.log = []
+            self.lost_request = None       # (method, path) of the request whose answer was lost
+            self.repeats = 0               # arrivals that repeat it (same method and path, directly after it)
 
     def snapshot(self, db):
         """{docid: (generation, deleted, body without _id/_rev)}"""
@@ -198,8 +202,13 @@ class _Handler(BaseHTTPRequestHandler):
                     st.n += 1
                     st.drops = 0
                 return self._drop()
+            if not fault and st.lost_request == (self.command, self.path) and st.log and st.log[-1][2] == "drop":
+                st.repeats += 1            # the client (its connection pool) sends the same request again: one
+                st.n -= 1                  # logical request
             st.n += 1
             self._lost = bool(fault and fault[0] == "lost")
+            if self._lost:
+                st.lost_request = (self.command, self.path)
             if fault and fault[0] == "status":
                 return self._reply(fault[1], head=head)
             if fault and fault[0] == "garbage":
